@@ -118,7 +118,8 @@ def cases(shard, tier):
                 yield {'family': fam, 'ctx': ctx, 'what': what, 'v': v, 'must': True}
     elif fam == 'structure':
         for how in ('no-origin', 'no-channel', 'no-frame', 'frame-without-channels', 'file-id-mismatch',
-                    'no-logical-file', 'second-lf-without-origin'):
+                    'no-logical-file', 'second-lf-without-origin', 'same-named-channels-in-frame',
+                    'same-named-channels-in-frame-dict', 'same-channel-twice-in-frame'):
             yield {'family': fam, 'ctx': ctx, 'how': how, 'must': how != 'no-logical-file'}
     elif fam == 'window':
         for src in ('inline', 'dict', 'struct', 'h5'):
@@ -254,6 +255,19 @@ def make_spec(c):
             sp['ops'].append({'op': 'set', 'h': 'O0', 'attr': 'file_id', 'part': 'value', 'value': 'ANOTHER-ID'})
         elif how == 'no-logical-file':
             sp['ops'] = []
+        elif how.startswith('same-named-channels-in-frame'):
+            inline = not how.endswith('dict')
+            x1 = _arr('uint8', [3])
+            x2 = _arr('uint16', [3])
+            sp['ops'].append(S.op_add('channel', 'X1', 'X', **({'data': x1} if inline else {})))
+            sp['ops'].append(S.op_add('channel', 'X2', 'X', **({'data': x2} if inline else {})))
+            sp['ops'].append(S.op_add('frame', 'FX', 'FRAME-X', channels=[{'$ref': 'CA'}, {'$ref': 'X1'}, {'$ref': 'X2'}]))
+            sp['ops'] = [op for op in sp['ops'] if op.get('h') != 'F']
+            sp['ops'].append(S.op_add('frame', 'F', 'FRAME', channels=[{'$ref': 'CB'}]))
+            if not inline:
+                sp['write']['data'] = {'$datadict': {'X': x1, 'X__1': x2}}
+        elif how == 'same-channel-twice-in-frame':
+            sp['ops'][4]['kw']['channels'] = [{'$ref': 'CA'}, {'$ref': 'CB'}, {'$ref': 'CA'}]
         elif how == 'second-lf-without-origin':
             sp['ops'].append({'op': 'lf', 'h': 'L1', 'kw': {'fh_id': 'SECOND'}})
             sp['ops'].append(S.op_add('channel', 'C2', 'CH2', lf='L1', set_name='S2', data=_arr('uint8', [2])))
